@@ -151,6 +151,16 @@ def oracle(case, res):
         if len(inst) != len(exp) or any((a is None) != (e is None) or (e is not None and abs(a - e) > 1e-4)
                                         for a, e in zip(inst, exp)):
             return f"ground-truth instances {inst} do not belong to the yielded frames {want}"
+        multi = bool(case.get("multi_inst"))
+        n_here = [0 if i in bare else (2 if multi and i % 3 == 2 else 1) for i in want]
+        # max_instances = the largest len(lf.instances) of the labels (empty instances are listed, see FakeLabels)
+        rows_all = max([(0 if i % 2 == 0 else 1) if i in bare else (2 if multi and i % 3 == 2 else 1)
+                        for i in range(end)] + [0])
+        real = [x for y in ys for x in y.get("inst_real", [])]
+        rows = [x for y in ys for x in y.get("inst_rows", [])]
+        if real != n_here or any(x != rows_all for x in rows):
+            return (f"instance tensors hold {real} animals in {rows} rows; the frames hold {n_here} and every tensor "
+                    f"must have max_instances = {rows_all} rows (NaN padded)")
     for k, y in enumerate(ys):
         n = len(y["frame_idx"])
         if y["n_img"] != n or n < 1 or n > batch or (k < len(ys) - 1 and n != batch):
@@ -364,7 +374,7 @@ def explore(case, limit=None):
         r = run_case(case, w)
         n += 1
         yield w, r
-        if r["status"] != "ok" or "C" in r["errors"]:
+        if r["status"] != "ok" or "C" in r["errors"] or oracle(case, r):
             return                      # a failing execution: siblings add nothing, and hangs are slow
         t = r["taken"]
         for j in range(len(w), len(t)):
@@ -381,7 +391,8 @@ def run_case(case, choices, default="P"):
                           defaults=case.get("defaults", False), instances_key=case.get("instances_key", False),
                           yield_point=case.get("yield_point", False), ctor=case.get("ctor", "direct"),
                           args=case.get("args"), n_videos=case.get("n_videos", 1), bare=case.get("bare", ()),
-                          poll=case.get("poll", "none"), infer_raises_at=case.get("infer_raises_at"))
+                          poll=case.get("poll", "none"), infer_raises_at=case.get("infer_raises_at"),
+                          multi_inst=case.get("multi_inst", False))
 
 
 def exhaustive_configs(tier):
@@ -468,6 +479,11 @@ def construction_configs(tier):
         out.append(dict(reader="labels", start=0, end=3, cap=1, batch=2, fault=fault, instances_key=ik, bare=bare))
     out.append(dict(reader="labels", start=0, end=4, cap=2, batch=3, fault=None, instances_key=True, bare=[3],
                     n_videos=2))
+    # frames with different numbers of animals: max_instances = 2, NaN rows appended elsewhere
+    for fault in (None, 3):
+        out.append(dict(reader="labels", start=0, end=4, cap=2, batch=2, fault=fault, instances_key=True, multi_inst=True))
+    out.append(dict(reader="labels", start=0, end=4, cap=1, batch=3, fault=None, instances_key=True, multi_inst=True,
+                    bare=[3], n_videos=2, ctor="from_filename"))
     return out
 
 
@@ -525,6 +541,8 @@ def sampled_cases(rng, tier):
             case["instances_key"] = True
         if reader == "labels" and rng.random() < 0.4:
             case["n_videos"] = rng.choice([2, 3])
+        if reader == "labels" and rng.random() < 0.3:
+            case["multi_inst"] = True
         if reader == "labels" and n and rng.random() < 0.25:
             case["bare"] = sorted(rng.sample(range(n), rng.randint(1, min(2, n))))
         if rng.random() < 0.3:
@@ -595,14 +613,15 @@ def check(run: core.Run) -> int:
     budget_s = 900 if run.tier == "thorough" else 150
     cap_per_cfg = 5000 if run.tier == "thorough" else 600
     capped, failing_cfgs, out_of_time = 0, 0, False
-    cap_poll = 1500 if run.tier == "thorough" else 120
+    cap_poll = 800 if run.tier == "thorough" else 120
     for ci, case in enumerate(cfgs):
         k = 0
         for w, r in explore(case, limit=cap_per_cfg if ci < n_plain else cap_poll):
             records.append((case, w, "P", r, True))
             k += 1
             hangs += r["status"] == "hang"
-            if r["status"] != "ok" or "C" in r["errors"]:
+            if (r["status"] != "ok" or "C" in r["errors"] or oracle(case, r)) and not \
+                    (bare_selected(case) and not STATE["f130_fixed"]):
                 failing_cfgs += 1
         capped += ci < n_plain and k >= cap_per_cfg
         n_by_cfg[json.dumps(case, sort_keys=True)] = k
@@ -799,6 +818,9 @@ def check(run: core.Run) -> int:
                              f"VideoReader and LabelsReader (fault in labels[idx] and in lf.image), "
                              f"n <= {4 if run.tier == 'quick' else 5} frames (+ n = {5 if run.tier == 'quick' else 6} for part of the grid), "
                              f"capacity {'1,2' if run.tier == 'quick' else '1,2,3'} (+0 = unbounded, 3), batch 1..3, every fault position and none "
+                             f"; readers built by the constructor and by from_filename with omitted / None / 0 range arguments, "
+                             f"multi-video labels, ground-truth instances incl. frames without instances; the real threads with a "
+                             f"polling get (timed get, retry; <= {cap_poll} schedules per configuration, fewest context switches first) "
                              f"= {n_exh} executions of the real threads"),
         "sampled_schedules": len(records) - n_exh,
         "sampled_scope": "n <= %d, capacity 0..%d, batch <= %d, random/biased/bursty choice words" % (
@@ -827,17 +849,25 @@ def check(run: core.Run) -> int:
         "modelled (Stream.v: full, l_put, l_get_*, l_join), exercised through the real queue object, not verified",
         "translator/c13_skel2coq.py (control-skeleton extraction, fail-closed) and the correspondence between skeleton "
         "nodes and transition rules documented in Stream.v",
-        "harness/c13_sched.py: scheduling points are the frame read, put, get and join; code between two points is "
+        "harness/c13_sched.py: scheduling points are the frame read, put, get, join and is_alive(); code between two points is "
         "assumed thread-local (it touches only the frame just read / taken)",
+        "from_filename: sio.load_video / sio.load_slp and the Queue class are substituted in sleap_nn.data.providers for the "
+        "duration of the call (fake video / labels, controlled queue); the classmethods' own code runs unchanged",
+        "the polling / give-up consumers are harness-side wrappers of the queue's get() around the real _predict_generator "
+        "(/repo itself only has the blocking get)",
     ]
     run.assumptions += [
         "only Exception-class read failures are injected (BaseException such as KeyboardInterrupt is out of scope)",
         "failures of the consumer side (inference model raising) are outside the property: the reader thread then "
-        "stays blocked in put() (observed, not reported)",
+        "stays blocked in put() when the items still to come do not fit into the queue (observed every run: "
+        "coverage.observation_consumer_exception; c13_blocked_reader_needs_get; not reported)",
+        "timed get: fairness = a timed get that raised Empty is not scheduled again until the shared state changes "
+        "(scheduler) / the run does not time out for ever while another step is enabled (c13_poll_* theorems)",
         "batch size >= 1 (batch 0 makes the consumer spin without calling get: ex_batch0_livelock)",
     ]
-    return run.finish(explanation="C13: LTS model of reader thread / bounded queue / consumer loop with unbounded "
-                                  "proofs of the stream invariant, deadlock freedom and termination on every schedule; "
+    return run.finish(explanation="C13: LTS model of reader thread / bounded queue / consumer loop (blocking and timed get) with unbounded "
+                                  "proofs of the stream invariant, deadlock freedom and termination on every (fair) schedule, request "
+                                  "model of the readers' constructors, refutation of the give-up consumer and of the bare-frame reader; "
                                   "tied to the source by skeleton extraction and by replaying traces of the real "
                                   "threads under exhaustive small schedules through the verified trace checker")
 
